@@ -32,6 +32,11 @@ pub struct RerunCase {
     pub runs: Vec<(Callback, Option<u16>)>,
     pub xor: bool,
     pub compact_index: bool,
+    /// bit i set: run i is preceded by a run of the same callback into the same dump folder that FAILS (--verify on a
+    /// chain whose block 0 is not the coin's genesis block, or a damaged copy of the data directory); what a failed
+    /// run leaves behind - in the dump folder, HOME or TMPDIR - must not change the result of the runs after it
+    #[serde(default)]
+    pub failures: u8,
 }
 
 fn chain_cfg(tier: Tier, heavy: bool) -> gen::ChainCfg {
@@ -66,7 +71,7 @@ pub fn thread_strategy(tier: Tier) -> BS<ThreadCase> {
 
 pub fn rerun_strategy(tier: Tier) -> BS<RerunCase> {
     let r = (proptest::sample::select(ALL_CALLBACKS.to_vec()), proptest::option::weighted(0.3, any::<u16>()));
-    (gen::chain(&chain_cfg(tier, false)), proptest::collection::vec(r, 3..=6), any::<bool>(), any::<bool>()).prop_map(|(chain, runs, xor, compact_index)| RerunCase { chain, runs, xor, compact_index }).boxed()
+    (gen::chain(&chain_cfg(tier, false)), proptest::collection::vec(r, 3..=6), any::<bool>(), any::<bool>()).prop_map(|(chain, runs, xor, compact_index)| { let failures = (chain.blocks.len() as u8).wrapping_mul(37) ^ (runs.len() as u8) << 2; RerunCase { chain, runs, xor, compact_index, failures } }).boxed()
 }
 
 pub fn check_threads(c: &ThreadCase) -> Verdict {
@@ -118,6 +123,19 @@ pub fn check_threads(c: &ThreadCase) -> Verdict {
     Verdict::Pass(Pass { nontrivial: maxtx >= 64, key: key_of(c), classes, known: vec![], sub_evals: runs, sample: Some(sample), extra_keys: vec![] })
 }
 
+fn copy_dir(from: &std::path::Path, to: &std::path::Path) -> Result<(), String> {
+    std::fs::create_dir_all(to).map_err(|e| e.to_string())?;
+    for e in std::fs::read_dir(from).map_err(|e| e.to_string())?.flatten() {
+        let (p, t) = (e.path(), to.join(e.file_name()));
+        if p.is_dir() {
+            copy_dir(&p, &t)?;
+        } else {
+            std::fs::copy(&p, &t).map_err(|e| e.to_string())?;
+        }
+    }
+    Ok(())
+}
+
 fn digest_dir(dir: &std::path::Path) -> BTreeMap<String, String> {
     let mut m = BTreeMap::new();
     if let Ok(rd) = std::fs::read_dir(dir) {
@@ -155,6 +173,33 @@ pub fn check_reruns(c: &RerunCase) -> Verdict {
     for (cb, end_sel) in &c.runs {
         let end = end_sel.map(|x| 1 + ((x as u64 * (tip + 2)) >> 16));
         let e = end.map(|x| x.min(tip)).unwrap_or(tip);
+        if c.failures >> (n as u32 % 8) & 1 == 1 {
+            let mut of = RunOpts::new(built.coin, *cb);
+            let failed = if n % 2 == 0 {
+                // block 0 of these chains is not the coin's genesis block: --verify must reject it
+                of.verify = true;
+                infra!(w.run_in(&dump, &of))
+            } else {
+                // a copy of the data directory whose last blk file lost its second half
+                let bad = w.scratch.path.join(format!("damaged-{}", n));
+                infra!(copy_dir(&w.data(), &bad));
+                if let Some(f) = std::fs::read_dir(&bad).ok().and_then(|rd| rd.flatten().map(|e| e.path()).filter(|p| p.file_name().and_then(|x| x.to_str()).map(|x| x.starts_with("blk") && x.ends_with(".dat")).unwrap_or(false)).max()) {
+                    let len = std::fs::metadata(&f).map(|m| m.len()).unwrap_or(0);
+                    if let Ok(fh) = std::fs::OpenOptions::new().write(true).open(&f) {
+                        let _ = fh.set_len(len / 2);
+                    }
+                }
+                let r = infra!(vpmodel::run::run_tool(&bad, &dump, &of));
+                let _ = std::fs::remove_dir_all(&bad);
+                r
+            };
+            if failed.timed_out {
+                return Verdict::Infra("tool run hit the watchdog".into());
+            }
+            if failed.ok() {
+                return Verdict::Fail(format!("the deliberately failing run before run #{} ({}, {}) exited 0", n + 1, cb.cli(), if n % 2 == 0 { "--verify on a chain without the genesis block" } else { "truncated blk file" }));
+            }
+        }
         let mut o = RunOpts::new(built.coin, *cb);
         o.end = end;
         // every run after the first happens at another date: the wall clock is shifted (LD_PRELOAD shim) to within
@@ -200,6 +245,47 @@ pub fn check_reruns(c: &RerunCase) -> Verdict {
     Verdict::Pass(Pass { nontrivial: c.runs.len() >= 3, key: key_of(c), classes, known: vec![], sub_evals: n, sample: Some(sample), extra_keys: vec![] })
 }
 
+/// Two DIFFERENT data directories are processed alternately (A, B, A, B, A) by the same user: same HOME, same TMPDIR,
+/// and the same spelling of the directories on the command line (relative names, each run started in its own working
+/// directory). Whatever a run keeps outside its dump folder must not leak into the result of a run over another
+/// data directory: every run is compared with the model of ITS chain.
+#[derive(Clone, Debug, Serialize, Deserialize)]
+pub struct TwoDirCase {
+    pub a: ChainSpec,
+    pub b: ChainSpec,
+    pub cb: Callback,
+    pub reopens_a: u8,
+}
+
+pub fn check_two_dirs(c: &TwoDirCase) -> Verdict {
+    let (ba, bb) = (c.a.build(), c.b.build());
+    let mut pa = canonical_plan(ba.coin, &ba.blocks);
+    // A's index went through several sessions (several log / table files), B's through one
+    pa.ldb_reopens = c.reopens_a;
+    pa.ldb_small_buffer = c.reopens_a % 2 == 1;
+    let mut pb = canonical_plan(bb.coin, &bb.blocks);
+    let wa = infra!(World::create("c13a", &mut pa));
+    let wb = infra!(World::create("c13b", &mut pb));
+    let shared = wa.scratch.path.join("user");
+    let mut runs = 0;
+    for k in 0..5 {
+        let (w, built) = if k % 2 == 0 { (&wa, &ba) } else { (&wb, &bb) };
+        let mut o = RunOpts::new(built.coin, c.cb);
+        o.path_style = 1;
+        o.state_dir = Some(shared.clone());
+        let out = infra!(w.run(&o));
+        runs += 1;
+        if let Some(v) = timed_out_is_infra(&out) {
+            return v;
+        }
+        let all = built.all();
+        holds!(check_callback(c.cb, built.coin, &all, &out, 0).map_err(|m| format!("run #{} (data directory {}, {}) after runs over the other data directory with the same HOME / TMPDIR / -d spelling: {}", k + 1, if k % 2 == 0 { "A" } else { "B" }, c.cb.cli(), m)));
+    }
+    let classes = vec![format!("cb={}", c.cb.cli()), format!("same-coin={}", ba.coin == bb.coin), format!("index-sessions-A={}", c.reopens_a + 1)];
+    let sample = serde_json::json!({"coin_a": ba.coin.cli(), "coin_b": bb.coin.cli(), "tip_a": ba.tip(), "tip_b": bb.tip(), "callback": c.cb.cli(), "order": "A B A B A"});
+    Verdict::Pass(Pass { nontrivial: true, key: key_of(c), classes, known: vec![], sub_evals: runs, sample: Some(sample), extra_keys: vec![] })
+}
+
 /// The same data directory, holding competing index records (stale siblings, failed blocks, reorged-out
 /// branches with data in another blk file, header-only records), is processed by several fresh processes:
 /// whatever the tool delivers (known finding D7 of C04 makes that the key-order winner, not always the
@@ -238,6 +324,15 @@ fn run(eng: &Engine, a: &Args) {
     let (nt, nr) = if a.tier == Tier::Quick { (32, 80) } else { (400, 800) };
     let tier = a.tier;
     eng.explore("same-directory-repeated", scaled(if a.tier == Tier::Quick { 64 } else { 800 }, a), move || crate::c04::strategy(tier), check_repeat);
+    eng.explore("two-directories-one-user", scaled(if a.tier == Tier::Quick { 48 } else { 600 }, a), move || {
+        let cfg = chain_cfg(tier, false);
+        (gen::chain(&cfg), gen::chain(&cfg), proptest::sample::select(ALL_CALLBACKS.to_vec()), 0u8..4, any::<bool>()).prop_map(|(a, mut b, cb, reopens_a, same_coin)| {
+            if same_coin {
+                b.coin = a.coin;
+            }
+            TwoDirCase { a, b, cb, reopens_a }
+        }).boxed()
+    }, check_two_dirs);
     eng.explore("threads", scaled(nt, a), move || thread_strategy(tier), check_threads);
     eng.explore("reruns", scaled(nr, a), move || rerun_strategy(tier), check_reruns);
 }
@@ -247,6 +342,7 @@ fn replay(part: &str, case: serde_json::Value) -> Option<Verdict> {
         "threads" => Some(check_threads(&serde_json::from_value(case).ok()?)),
         "reruns" => Some(check_reruns(&serde_json::from_value(case).ok()?)),
         "same-directory-repeated" => Some(check_repeat(&serde_json::from_value(case).ok()?)),
+        "two-directories-one-user" => Some(check_two_dirs(&serde_json::from_value(case).ok()?)),
         _ => None,
     }
 }
